@@ -10,6 +10,8 @@ LEAN_MODULES = ["KmipModel.Props.C04"]
 RULE = ("small-scope: every sequence of the lifecycle alphabet up to the tier's depth over two objects (exhaustive); "
         "state x operation matrix: every creating letter x each of its objects x every lifecycle path (Pre-Active, "
         "Active, revoked from either with each reason code, revoked twice) x every letter addressing that object; "
+        "use-retire-use: every cryptographic use of a key (incl. as wrapping key and DeriveKey base) succeeding while "
+        "Active, then each way of retiring the key, then a use again; "
         "then seeded adaptive histories biased to Create/Register/Activate/Revoke/Destroy and the cryptographic "
         "operations; a line is non-trivial when it targets an existing object with a lifecycle or cryptographic "
         "operation; distinct = distinct (request, identity, outcome shape)")
@@ -106,6 +108,40 @@ def state_matrix_builder(g, E, do, depth):
                 k += 1
 
 
+def use_retire_use_builder(g, E, do, depth):
+    """[a cryptographic use of key 1 that succeeds while it is Active; key 1 is retired (deactivated, compromised,
+    destroyed after deactivation); the same use again]: whatever the first, successful use left behind (a validated
+    key, a derived context, a cache entry) is no licence for the second one"""
+    A = alphabet()
+    creates = [a for a in A if a["op"] == "create"]
+    uses = [a for a in A if (a.get("uid") == "1" and a["op"] in ("encrypt", "decrypt", "sign", "signatureVerify", "mac"))
+            or (a["op"] == "deriveKey" and a.get("uids") == ["1"])
+            or (a["op"] == "get" and (a.get("wrap") or {}).get("enckey") == "1")]
+    revs = [a for a in A if a["op"] == "revoke" and a.get("uid") == "1"]
+    destroy = [a for a in A if a["op"] == "destroy" and a.get("uid") == "1"][0]
+    act = [a for a in A if a["op"] == "activate" and a.get("uid") == "1"][0]
+    retirements = [(r,) for r in revs] + [(revs[0], destroy)]
+    k = 0
+
+    def req(it):
+        do({"cmd": "req", "now": 1000 + k % 3, "id": {"user": "alice", "groups": None},
+            "req": {"version": 14, "ts": None, "async": None, "bopt": None, "maxsize": None, "items": [dict(it)]}})
+        do({"cmd": "dump"})
+    for use in uses:
+        for ret in retirements:
+            for again in (use,) + tuple(u for u in uses if u is not use)[:1]:
+                do({"cmd": "reset"})
+                do({"cmd": "dump"})
+                req(creates[0])
+                req(creates[0])
+                req(act)
+                req(use)
+                for r_ in ret:
+                    req(r_)
+                req(again)
+                k += 1
+
+
 def nontrivial(j, o):
     if "results" not in o:
         return False
@@ -130,6 +166,7 @@ def run(ctx):
                   "props.c04.exhaustive_builder") for i in creators for p in range(nparts)]
     args += [(1000 + i, depth, {"first": i, "builtin_policies_only": True}, True, "props.c04.state_matrix_builder")
              for i in creators]
+    args += [(2000, depth, {"builtin_policies_only": True}, True, "props.c04.use_retire_use_builder")]
     with multiprocessing.get_context("fork").Pool(min(16, len(args))) as pool:
         exh = pool.map(engine_check.gen_history, args)
     n_seq = len(creators) * (len(A) ** 2)
